@@ -195,6 +195,26 @@ def eval_pose(P, pose, level, seed, out, info):
                 t2 = np.array(call(), float).reshape(6)
                 out.append(("second_call_same_argument", float(np.abs(pg.legs_wrench_on_top(B, Tt, P.bl, P.tl, t2) - want).max()) / float(np.linalg.norm(want)), TOL_F, 6))
                 out.append(("argument_modified", float(np.abs(_vec(Wobj) - F).max()), 1e-15, 6))
+            if pose % 7 == 3:
+                # a query at an explicitly given OTHER pose (here the neutral one) is a pure query: the argument-less queries that
+                # follow still refer to the platform's own poses
+                s4 = P.fresh()
+                splib.place(s4, Tt, B)
+                Q = B @ splib.rel_pose(P.h, 0)
+                tau6 = np.array(s.staticForces(Wrench(F.copy())), float).reshape(6)
+                for qname, q in (("inverseJacobian", lambda: s4.inverseJacobian(tm(Q.copy()), tm(B.copy()))),
+                                 ("staticForces", lambda: s4.staticForces(Wrench(F.copy()), tm(Q.copy()), tm(B.copy())))):
+                    q()
+                    sw4 = _vec(s4.sumActuatorWrenches(tau6.copy()))
+                    out.append(("query_after_query_elsewhere", float(np.abs(sw4 + F).max()) / nF, TOL_F, 6))
+                    q()
+                    tc4 = np.array(s4.carryMassCalc(Wrench(F.copy()))[0], float).reshape(6)
+                    out.append(("query_after_query_elsewhere",
+                                float(np.abs(pg.legs_wrench_on_top(B, Tt, P.bl, P.tl, tc4) - load).max()) / float(np.linalg.norm(load)), TOL_F, 6))
+                    q()
+                    out.append(("query_after_query_elsewhere", float(np.abs(np.array(s4.inverseJacobian(), float) - Jo).max()), TOL_J, None))
+                info["plate_change"] = max(info["plate_change"], np.abs(splib.T_of(s4.getBottomT()) - B).max(),
+                                           np.abs(splib.T_of(s4.getTopT()) - Tt).max())
             if pose % 7 == 0:
                 # re-spin between two queries at unchanged plate poses: the joint tables change, the poses do not
                 s3 = P.fresh()
